@@ -82,6 +82,11 @@ type ProcResult struct {
 func fsFromSession(files []File, dirs []string, links [][2]string) *simos.FS {
 	fs := fsFromFiles(files, dirs)
 	for _, l := range links {
+		if l[1] == sizeUnknownMark {
+			// an input whose size stat cannot tell (a pipe a writer feeds)
+			fs.SizeUnknown[l[0]] = true
+			continue
+		}
 		if l[1] == fifoMark {
 			// not a link at all: the name is a named pipe somebody is reading
 			fs.Fifos[l[0]] = true
@@ -96,6 +101,10 @@ func fsFromSession(files []File, dirs []string, links [][2]string) *simos.FS {
 // fifoMark in the target position of a session's link list says that the name
 // is a named pipe with a reader attached (`-o >(cmd)`, a FIFO made with mkfifo).
 const fifoMark = "|fifo"
+
+// sizeUnknownMark: the name is an input that stat reports as a pipe of size 0
+// (`jd <(cmd) b`, a named pipe, a /proc file); its content is in the file list.
+const sizeUnknownMark = "|size-unknown"
 
 func fsFromFiles(files []File, dirs []string) *simos.FS {
 	fs := simos.NewFS()
